@@ -83,11 +83,12 @@ Theorem C18_binary_negzero_refuted_pre :
     Bin.choose Bin.cops d = Bin.F32 /\ Bin.read_num Bin.cops Bin.F32 (Bin.write_num Bin.cops Bin.F32 n) = n.
 Proof. exact BinP.negzero_refuted_pre. Qed.
 
-(** °binary (binary v) matches v, for every value without map keys whose header and payload are
+(** °binary (binary v) matches v, for every value -- MAP ARRAYS included: the keys are a value of the same kind with as many rows as the array, one nesting level deeper -- whose header and payload are
     within the format's limits ([BinS.wf]: flags <= 15, label valid UTF-8 shorter than 2^32, rank <= 255,
     dims < 2^32, product of the non-zero dims <= 2^63 (validate_size), element count = product of the shape, f64 patterns < 2^64, bytes < 256, characters
     scalar values) and nested at most MAX_DEPTH = 32 deep: the encoder succeeds, and the decoder --
     including the element-count guard of 5718f7d -- returns a value with the same flags, label and shape
+    whose map keys are what `map` makes ([Bin.norm_keys]: byte keys become numbers) of keys that match, and
     whose payload is the same ([BinS.bmatch]: numbers have the SAME bit patterns -- no exception for
     negative zero or NaN payloads --, or come back as the bytes that denote them; bytes, characters,
     complex bit patterns equal; boxes element-wise), leaving [rest] unread *)
@@ -152,6 +153,33 @@ Proof.
     | |- _ = _ => reflexivity
     | |- True => exact I
     end.
+Qed.
+
+(** a map array: keys [1 2] (bytes) over the values [3 4]; the decoder returns the keys as numbers *)
+Example C18_nonvacuous_binary_map :
+  let hd := {| Bin.alloc := false; Bin.flags := 0; Bin.label := []; Bin.shape := [2] |} in
+  let v := Bin.BLeaf {| Bin.alloc := true; Bin.flags := 0; Bin.label := []; Bin.shape := [2] |}
+             (Some (Bin.BLeaf hd None (Bin.LByte [1; 2]))) (Bin.LByte [3; 4]) in
+  BinS.wf v /\ BinS.height v = 1%nat /\
+  Bin.to_binary_top Bin.cops v = Some [128; 0; 0;0;0;0; 1; 0; 1; 2;0;0;0; 1; 2;  1; 2;0;0;0; 3; 4] /\
+  exists v', Bin.from_binary_top Bin.cops [128; 0; 0;0;0;0; 1; 0; 1; 2;0;0;0; 1; 2;  1; 2;0;0;0; 3; 4] = Some v'
+             /\ BinS.bmatch Bin.cops v v'.
+Proof.
+  cbv zeta. split; [|split; [reflexivity|split; [vm_compute; reflexivity|]]].
+  - cbn [BinS.wf BinS.wf_leaf Bin.shape zprod fold_right length]. unfold BinS.wf_hdr, BinS.rc_shape.
+    cbn [Bin.flags Bin.label Bin.shape length Utf8.un_utf8 Bin.row_count].
+    repeat match goal with
+    | |- _ /\ _ => split
+    | |- Forall _ _ => constructor
+    | |- exists _, Some _ = Some _ => eexists; reflexivity
+    | |- True => exact I
+    | |- @eq Z _ _ => reflexivity
+    | |- _ => cbn; lia
+    end.
+  - eexists. split; [vm_compute; reflexivity|].
+    cbn [BinS.bmatch BinS.pmatch]. split; [|split; [repeat split|reflexivity]].
+    exists (Bin.BLeaf {| Bin.alloc := false; Bin.flags := 0; Bin.label := []; Bin.shape := [2] |} None (Bin.LByte [1; 2])).
+    split; [vm_compute; reflexivity|]. cbn [BinS.bmatch BinS.pmatch]. repeat split.
 Qed.
 
 Print Assumptions C18_unbits_bits.
